@@ -417,6 +417,10 @@ func (p *parser) primary() Expr {
 	case "str":
 		return &EStr{t.text}
 	case "ident":
+		if t.text == "forall" || t.text == "exists" {
+			p.p-- // a quantifier in operand position extends as far right as possible
+			return p.top()
+		}
 		return &EIdent{t.text}
 	case "op":
 		if t.text == "(" {
